@@ -1,0 +1,264 @@
+//! Verification-only hooks (compiled only with
+//! `--cfg smlxl_storage_layout_extractor_verif`).
+//!
+//! Everything in here is inert unless a [`Controller`] has been installed on
+//! the current thread with [`install`]. With a controller installed the
+//! library becomes a deterministic function of `(input, configuration, plan)`:
+//!
+//! * opaque value identifiers come from a counter instead of `Uuid::new_v4`,
+//! * every place where a hash collection is turned into a sequence first puts
+//!   that sequence into a canonical order (fixed-key SipHash of the element,
+//!   `Debug` rendering as the tie-break) and then applies the permutation
+//!   that the controller's plan prescribes for that `(site, occurrence)`,
+//! * every such order point is logged, so that an external explorer can
+//!   enumerate the alternatives.
+
+use std::{
+    cell::RefCell,
+    collections::{hash_map::DefaultHasher, HashMap, VecDeque},
+    fmt::Debug,
+    hash::{Hash, Hasher},
+    sync::{Arc, OnceLock, RwLock},
+};
+
+use bimap::BiMap;
+use ethnum::U256;
+use uuid::Uuid;
+
+/// A permutation to apply at one order point, relative to the canonical order.
+#[derive(Clone, Debug, Eq, PartialEq)]
+pub enum Perm {
+    /// Reverse the canonical order.
+    Reverse,
+
+    /// Rotate the canonical order left by the given amount.
+    RotateLeft(usize),
+
+    /// Swap the elements at the two given canonical positions.
+    Swap(usize, usize),
+
+    /// `result[i] = canonical[indices[i]]`; must be a permutation of `0..len`.
+    Explicit(Vec<usize>),
+}
+
+/// One executed order point.
+#[derive(Clone, Debug, Eq, PartialEq)]
+pub struct OrderPoint {
+    /// The name of the site in the source.
+    pub site: &'static str,
+
+    /// How many times that site had been reached before, in this run.
+    pub occurrence: usize,
+
+    /// The number of elements that were ordered.
+    pub len: usize,
+
+    /// Whether a non-identity permutation from the plan was applied.
+    pub deviated: bool,
+}
+
+/// The per-thread controller.
+#[derive(Clone, Debug, Default)]
+pub struct Controller {
+    uuid_counter: u128,
+    plan:         HashMap<(String, usize), Perm>,
+    occurrences:  HashMap<&'static str, usize>,
+    log:          Vec<OrderPoint>,
+    plan_errors:  Vec<String>,
+}
+
+impl Controller {
+    /// Creates a controller that applies `plan` (a list of
+    /// `((site, occurrence), permutation)`) on top of the canonical order.
+    #[must_use]
+    pub fn new(plan: Vec<((String, usize), Perm)>) -> Self {
+        Self {
+            plan: plan.into_iter().collect(),
+            ..Self::default()
+        }
+    }
+
+    /// The order points executed so far.
+    #[must_use]
+    pub fn log(&self) -> &[OrderPoint] {
+        &self.log
+    }
+
+    /// Problems met while applying the plan (a planned permutation that did
+    /// not fit the sequence it was meant for).
+    #[must_use]
+    pub fn plan_errors(&self) -> &[String] {
+        &self.plan_errors
+    }
+
+    /// The number of identifiers handed out so far.
+    #[must_use]
+    pub fn uuids_issued(&self) -> u128 {
+        self.uuid_counter
+    }
+}
+
+thread_local! {
+    static CONTROLLER: RefCell<Option<Controller>> = const { RefCell::new(None) };
+}
+
+/// Installs `controller` on the current thread, returning the previous one.
+pub fn install(controller: Controller) -> Option<Controller> {
+    CONTROLLER.with(|c| c.borrow_mut().replace(controller))
+}
+
+/// Removes and returns the controller of the current thread.
+pub fn uninstall() -> Option<Controller> {
+    CONTROLLER.with(|c| c.borrow_mut().take())
+}
+
+/// Checks whether a controller is installed on the current thread.
+#[must_use]
+pub fn active() -> bool {
+    CONTROLLER.with(|c| c.borrow().is_some())
+}
+
+/// Gets the next deterministic identifier if a controller is installed.
+#[must_use]
+pub fn next_uuid() -> Option<Uuid> {
+    CONTROLLER.with(|c| {
+        c.borrow_mut().as_mut().map(|ctl| {
+            ctl.uuid_counter += 1;
+            Uuid::from_u128(ctl.uuid_counter)
+        })
+    })
+}
+
+fn canonical_key<T: Hash>(item: &T) -> u64 {
+    let mut hasher = DefaultHasher::new();
+    item.hash(&mut hasher);
+    hasher.finish()
+}
+
+/// Puts `items` into canonical order and then applies the planned permutation
+/// for this order point, if any. Does nothing without a controller.
+pub fn order<T: Hash + Debug>(site: &'static str, items: &mut Vec<T>) {
+    if !active() {
+        return;
+    }
+
+    // Canonical order: fixed-key hash first, `Debug` rendering on ties.
+    let mut keyed: Vec<(u64, T)> = items.drain(..).map(|i| (canonical_key(&i), i)).collect();
+    keyed.sort_by(|(ha, a), (hb, b)| {
+        ha.cmp(hb)
+            .then_with(|| format!("{a:?}").cmp(&format!("{b:?}")))
+    });
+    let mut canonical: Vec<Option<T>> = keyed.into_iter().map(|(_, i)| Some(i)).collect();
+    let len = canonical.len();
+
+    let (perm, occurrence) = CONTROLLER.with(|c| {
+        let mut guard = c.borrow_mut();
+        let ctl = guard.as_mut().expect("Controller vanished");
+        let counter = ctl.occurrences.entry(site).or_insert(0);
+        let occurrence = *counter;
+        *counter += 1;
+        (ctl.plan.get(&(site.to_string(), occurrence)).cloned(), occurrence)
+    });
+
+    let indices: Option<Vec<usize>> = match &perm {
+        None => None,
+        Some(Perm::Reverse) => Some((0..len).rev().collect()),
+        Some(Perm::RotateLeft(k)) if len > 0 => Some((0..len).map(|i| (i + k) % len).collect()),
+        Some(Perm::RotateLeft(_)) => Some(Vec::new()),
+        Some(Perm::Swap(a, b)) => {
+            if *a < len && *b < len {
+                let mut ix: Vec<usize> = (0..len).collect();
+                ix.swap(*a, *b);
+                Some(ix)
+            } else {
+                None
+            }
+        }
+        Some(Perm::Explicit(ix)) => {
+            let mut sorted = ix.clone();
+            sorted.sort_unstable();
+            if sorted == (0..len).collect::<Vec<_>>() {
+                Some(ix.clone())
+            } else {
+                None
+            }
+        }
+    };
+
+    let mut deviated = false;
+    match (perm, indices) {
+        (Some(_), Some(ix)) => {
+            deviated = ix.iter().enumerate().any(|(i, j)| i != *j);
+            for j in ix {
+                items.push(canonical[j].take().expect("Permutation used an index twice"));
+            }
+        }
+        (Some(p), None) => {
+            CONTROLLER.with(|c| {
+                if let Some(ctl) = c.borrow_mut().as_mut() {
+                    ctl.plan_errors.push(format!(
+                        "{p:?} does not fit {site}#{occurrence} of length {len}"
+                    ));
+                }
+            });
+            items.extend(canonical.into_iter().flatten());
+        }
+        (None, _) => items.extend(canonical.into_iter().flatten()),
+    }
+
+    CONTROLLER.with(|c| {
+        if let Some(ctl) = c.borrow_mut().as_mut() {
+            ctl.log.push(OrderPoint {
+                site,
+                occurrence,
+                len,
+                deviated,
+            });
+        }
+    });
+}
+
+/// [`order`] for a double-ended queue.
+pub fn order_deque<T: Hash + Debug>(site: &'static str, items: &mut VecDeque<T>) {
+    if !active() {
+        return;
+    }
+    let mut as_vec: Vec<T> = items.drain(..).collect();
+    order(site, &mut as_vec);
+    items.extend(as_vec);
+}
+
+/// Collects `items` into a vector and passes it through [`order`].
+pub fn ordered_vec<T: Hash + Debug>(
+    site: &'static str,
+    items: impl IntoIterator<Item = T>,
+) -> Vec<T> {
+    let mut as_vec: Vec<T> = items.into_iter().collect();
+    order(site, &mut as_vec);
+    as_vec
+}
+
+/// A view of the type checker state whose `inferences` come out in the
+/// controlled order; used by shadowing `state` for the initial unions.
+pub struct OrderedInferences<'a>(pub &'a crate::tc::state::TypeCheckerState);
+
+impl<'a> OrderedInferences<'a> {
+    /// The inferences for `variable`, in controlled order.
+    #[must_use]
+    pub fn inferences(
+        &self,
+        variable: crate::tc::state::type_variable::TypeVariable,
+    ) -> Vec<&'a crate::tc::expression::TypeExpression> {
+        ordered_vec("unify.init", self.0.inferences(variable).iter())
+    }
+}
+
+/// The process-wide cache of the hashed-slot table.
+static HASHES: OnceLock<Arc<RwLock<BiMap<U256, usize>>>> = OnceLock::new();
+
+/// Gets the shared hashed-slot table, building it with `make` on first use.
+pub fn cached_hashes(
+    make: impl FnOnce() -> BiMap<U256, usize>,
+) -> Arc<RwLock<BiMap<U256, usize>>> {
+    HASHES.get_or_init(|| Arc::new(RwLock::new(make()))).clone()
+}
